@@ -265,7 +265,9 @@ class Engine(object):
         for exname, rspec in c.raises.items():
             when = rspec if isinstance(rspec, str) else rspec.get('when', 'True')
             clsq, ids = rids[exname]
-            if exc.cid is None:
+            if exname in ('Exception', 'BaseException'):
+                m = z3.BoolVal(True)        # "any exception": no enumeration of classes (see apply_contract)
+            elif exc.cid is None:
                 m = z3.BoolVal(front.cls_id(exc.clsq) in ids)
             else:
                 m = Or(*[exc.cid == i for i in ids])
